@@ -157,6 +157,8 @@ def gen_random(rng, fam):
                 tr["do"] = _do_value(rng, targets)
             elif rng.random() < 0.5:
                 tr["publish"] = [{"y": 1}]
+            elif "when" in tr and rng.random() < 0.7:
+                pass        # a bare condition: the target defaults to the engine command continue
             else:
                 continue
             trs.append(tr)
